@@ -1663,3 +1663,185 @@ Proof.
         inversion E; subst. exists [SL_event nd e]. cbn [srun]. now rewrite E1. }
     exists (ls1 ++ ls2). rewrite srun_app, H1. exact H2.
 Qed.
+
+(* ---------------------------------------------------------------------------------- *)
+(* an evicted statement recovers: EXECUTE -> UNPREPARED -> PREPARE -> resend -> rows      *)
+(* ---------------------------------------------------------------------------------- *)
+
+Section Recover.
+Variable D : schema.
+Variable ST : nat -> stmt.
+Variable ns : nat.
+
+(* what one step of the specification system does, as far as call c and its node are concerned *)
+Lemma serve_spec st c q p n' r enc :
+  s_out st c = Some q ->
+  node_answer D ST ns (s_nodes st (s_route st c)) q p = (n', r, enc) ->
+  exists st1, sstep D ST ns st (SL_serve c p) = Some st1 /\
+    s_g st1 = s_g st /\ s_inbox st1 c = Some (r, enc, p) /\ s_out st1 c = None /\
+    s_route st1 = s_route st /\ s_nodes st1 (s_route st c) = n' /\ s_enc st1 = s_enc st.
+Proof.
+  intros HO HA. unfold sstep. rewrite HO, HA. eexists. split; [reflexivity|]. simpl.
+  rewrite !upd_same. repeat split; reflexivity.
+Qed.
+
+Lemma recv_spec st c r enc p sto cs oq :
+  s_inbox st c = Some (r, enc, p) ->
+  call_recv ST (k_ext (g_calls (s_g st) c)) (g_cells (s_g st)) (k_st (g_calls (s_g st) c)) r = Some (sto, cs, oq) ->
+  exists st1, sstep D ST ns st (SL_recv c) = Some st1 /\
+    k_st (g_calls (s_g st1) c) = cs /\ k_ext (g_calls (s_g st1) c) = k_ext (g_calls (s_g st) c) /\
+    k_x (g_calls (s_g st1) c) = k_x (g_calls (s_g st) c) /\
+    s_out st1 c = oq /\ s_inbox st1 c = None /\ s_nodes st1 = s_nodes st /\ s_route st1 = s_route st /\
+    g_cells (s_g st1) = fst (apply_store (s_g st) sto) /\ s_enc st1 c = Some (enc, p).
+Proof.
+  intros HI HR. unfold sstep. rewrite HI.
+  assert (HG : gstep ST (s_g st) (GL_resp c r) =
+          Some (mkG (fst (apply_store (s_g st) sto))
+                    (upd (g_calls (s_g st)) c
+                       (mkC (k_ext (g_calls (s_g st) c)) (k_x (g_calls (s_g st) c)) cs
+                            (match oq with Some q => (q, snap_of cs) :: k_sent (g_calls (s_g st) c) | None => k_sent (g_calls (s_g st) c) end)
+                            (r :: k_rcvd (g_calls (s_g st) c))))
+                    (snd (apply_store (s_g st) sto)))).
+  { simpl. rewrite HR. destruct (apply_store (s_g st) sto). reflexivity. }
+  rewrite HG. eexists. split; [reflexivity|]. simpl. rewrite !upd_same. simpl.
+  repeat split; try reflexivity.
+  unfold new_request, last_sent. simpl. rewrite upd_same. simpl. destruct oq as [q|]; simpl.
+  - destruct (List.length (k_sent (g_calls (s_g st) c))) as [|n0]; [reflexivity|].
+    destruct (Nat.eqb (Datatypes.S n0) n0) eqn:EE; [apply Nat.eqb_eq in EE; lia|reflexivity].
+  - now rewrite Nat.eqb_refl.
+Qed.
+
+Lemma tick_spec st c a :
+  k_st (g_calls (s_g st) c) = CS_resend a ->
+  exists st1, sstep D ST ns st (SL_tick c) = Some st1 /\
+    k_st (g_calls (s_g st1) c) = CS_exec2 a (g_cells (s_g st) (xa_stmt a)) /\
+    k_ext (g_calls (s_g st1) c) = k_ext (g_calls (s_g st) c) /\
+    k_x (g_calls (s_g st1) c) = k_x (g_calls (s_g st) c) /\
+    s_out st1 c = Some (Q_execute (mk_exec_frame (ST (xa_stmt a)) (k_ext (g_calls (s_g st) c)) a (g_cells (s_g st) (xa_stmt a)))) /\
+    s_inbox st1 = s_inbox st /\ s_nodes st1 = s_nodes st /\ s_route st1 = s_route st /\
+    g_cells (s_g st1) = g_cells (s_g st) /\ s_enc st1 = s_enc st.
+Proof.
+  intros HS. unfold sstep. simpl. rewrite HS. simpl. eexists. split; [reflexivity|]. simpl.
+  rewrite !upd_same. simpl. unfold last_sent. simpl. rewrite upd_same. simpl. repeat split; reflexivity.
+Qed.
+
+Lemma recovers st c a m s p0 p1 p :
+  let nd := s_nodes st (s_route st c) in
+  let k := g_calls (s_g st) c in
+  stmt_of_id ST ns (s_id (ST s)) = Some s -> stmt_of_text ST ns (s_text (ST s)) = Some s ->
+  sid D s 0 = s_id (ST s) ->
+  k_x k = Some a -> xa_stmt a = s -> k_st k = CS_exec1 a m ->
+  s_out st c = Some (Q_execute (mk_exec_frame (ST s) (k_ext k) a m)) -> s_inbox st c = None ->
+  k_ext k = n_ext nd ->
+  n_prep nd s = false -> n_salt nd s = 0 -> cols_of D s (n_ver nd s) <> [] ->
+  exists st' u,
+    srun D ST ns st [SL_serve c p0; SL_recv c; SL_serve c p1; SL_recv c; SL_tick c; SL_serve c p; SL_recv c] = Some st' /\
+    k_x (g_calls (s_g st') c) = Some a /\ k_ext (g_calls (s_g st') c) = k_ext k /\
+    k_st (g_calls (s_g st') c) = CS_done (O_rows u (p_paging p) (p_nrows p) (p_cells p)) /\
+    s_enc st' c = Some (cols_of D s (n_ver nd s), p).
+Proof.
+  intros nd k Hid Htx Hsid Hx Hs Hst Hout Hin Hext Hprep Hsalt Hcols. subst s.
+  set (s := xa_stmt a) in *. set (ext := k_ext k) in *.
+  (* 1. the node has evicted the statement: UNPREPARED *)
+  assert (A1 : node_answer D ST ns nd (Q_execute (mk_exec_frame (ST s) ext a m)) p0 = (nd, RUnprepared (s_id (ST s)), [])).
+  { simpl. rewrite Hid, Hprep. reflexivity. }
+  destruct (serve_spec st c _ p0 _ _ _ Hout A1) as [st1 [S1 [G1 [I1 [O1 [R1 [N1 E1]]]]]]].
+  (* 2. the client re-prepares *)
+  assert (C2 : call_recv ST (k_ext (g_calls (s_g st1) c)) (g_cells (s_g st1)) (k_st (g_calls (s_g st1) c)) (RUnprepared (s_id (ST s)))
+               = Some (None, CS_prep a, Some (Q_prepare (s_text (ST s))))).
+  { rewrite G1. fold k. rewrite Hst. simpl. reflexivity. }
+  destruct (recv_spec st1 c _ _ _ _ _ _ I1 C2) as [st2 [S2 [K2 [X2 [KX2 [O2 [I2 [N2 [R2 [CE2 E2]]]]]]]]]].
+  (* 3. the node prepares it again, under the same id *)
+  assert (ND2 : s_nodes st2 (s_route st2 c) = nd).
+  { rewrite N2, R2, R1. exact N1. }
+  set (v := n_ver nd s) in *.
+  set (pm := meta_of_cols (if n_ext nd then Some (mid_of D s v) else None) (if late D s then [] else cols_of D s v)).
+  set (nd' := mkNode (n_ext nd) (upd (n_prep nd) s true) (n_ver nd) (n_salt nd)).
+  assert (A3 : node_answer D ST ns (s_nodes st2 (s_route st2 c)) (Q_prepare (s_text (ST s))) p1 = (nd', RPrepared (s_id (ST s)) pm, [])).
+  { rewrite ND2. simpl. rewrite Htx. fold v. rewrite Hsalt, Hsid. reflexivity. }
+  destruct (serve_spec st2 c _ p1 _ _ _ O2 A3) as [st3 [S3 [G3 [I3 [O3 [R3 [N3 E3]]]]]]].
+  (* 4. same id: reprepare returns Ok, possibly after updating the cell *)
+  assert (C4 : call_recv ST (k_ext (g_calls (s_g st3) c)) (g_cells (s_g st3)) (k_st (g_calls (s_g st3) c)) (RPrepared (s_id (ST s)) pm)
+               = Some (option_map (fun m' => (s, m')) (reprepare_update (g_cells (s_g st3) s) pm), CS_resend a, None)).
+  { rewrite G3, K2. simpl. fold s. rewrite bytes_eqb_refl. reflexivity. }
+  destruct (recv_spec st3 c _ _ _ _ _ _ I3 C4) as [st4 [S4 [K4 [X4 [KX4 [O4 [I4 [N4 [R4 [CE4 E4]]]]]]]]]].
+  (* 5. reload the cell, resend *)
+  destruct (tick_spec st4 c a K4) as [st5 [S5 [K5 [X5 [KX5 [O5 [I5 [N5 [R5 [CE5 E5]]]]]]]]]].
+  set (m2 := g_cells (s_g st4) s) in *.
+  assert (EXT5 : k_ext (g_calls (s_g st4) c) = ext).
+  { rewrite X4, G3, X2, G1. reflexivity. }
+  rewrite EXT5 in O5.
+  (* 6. the node answers with rows *)
+  assert (ND5 : s_nodes st5 (s_route st5 c) = nd').
+  { rewrite N5, R5, N4, R4, R3. exact N3. }
+  assert (EXTN : ext = n_ext nd') by exact Hext.
+  assert (A6 : exists rm, node_answer D ST ns (s_nodes st5 (s_route st5 c)) (Q_execute (mk_exec_frame (ST s) ext a m2)) p
+                 = (nd', RRows (mkRows rm (p_paging p) (p_nrows p) (p_cells p)), cols_of D s v) /\
+               (forall i, rm = RM_full (Some i) (cols_of D s v) -> ext = true) /\
+               (rm = RM_none (N.of_nat (List.length (cols_of D s v))) \/ exists nid, rm = RM_full nid (cols_of D s v))).
+  { rewrite ND5. simpl. rewrite Hid. unfold nd' at 1. simpl. rewrite upd_same. simpl.
+    fold v. destruct (cols_of D s v) as [|c0 cr] eqn:EC; [now exfalso|].
+    unfold nd' at 1. simpl. destruct (n_ext nd) eqn:EN.
+    - destruct (cp_rmid ext (xa_use_cached a) m2) as [i|] eqn:ERM.
+      + destruct (bytes_eqb i (mid_of D s v)).
+        * destruct (cp_skip ext (xa_use_cached a) m2); eexists; (split; [reflexivity|]); (split; [intros i0 HH; discriminate|]); eauto.
+        * eexists. split; [reflexivity|]. split; [intros i0 _; exact Hext|]. eauto.
+      + exfalso. rewrite Hext in ERM. unfold cp_rmid in ERM.
+        destruct (cp_cached true (xa_use_cached a) m2); discriminate.
+    - destruct (cp_skip ext (xa_use_cached a) m2); eexists; (split; [reflexivity|]); (split; [intros i0 HH; discriminate|]); eauto. }
+  destruct A6 as [rm [A6 [RMext RMshape]]].
+  destruct (serve_spec st5 c _ p _ _ _ O5 A6) as [st6 [S6 [G6 [I6 [O6 [R6 [N6 E6]]]]]]].
+  (* 7. the caller gets the rows *)
+  set (body := mkRows rm (p_paging p) (p_nrows p) (p_cells p)) in *.
+  assert (UM : exists u, used_meta ext (cp_cached ext (xa_use_cached a) m2) body = Ok u).
+  { unfold used_meta. simpl. destruct RMshape as [->|[nid ->]].
+    - destruct (cp_cached ext (xa_use_cached a) m2); eauto.
+    - destruct nid as [i|]; [|eauto]. rewrite (RMext i eq_refl). eauto. }
+  destruct UM as [u UM].
+  assert (C7 : call_recv ST (k_ext (g_calls (s_g st6) c)) (g_cells (s_g st6)) (k_st (g_calls (s_g st6) c)) (RRows body)
+               = Some (option_map (fun m' => (s, m')) (exec_store ext (cp_cached ext (xa_use_cached a) m2) (g_cells (s_g st6) s) (RRows body)),
+                       CS_done (O_rows u (p_paging p) (p_nrows p) (p_cells p)), None)).
+  { rewrite G6, K5, X5, EXT5. simpl. fold s. fold m2. rewrite UM. reflexivity. }
+  destruct (recv_spec st6 c _ _ _ _ _ _ I6 C7) as [st7 [S7 [K7 [X7 [KX7 [O7 [I7 [N7 [R7 [CE7 E7]]]]]]]]]].
+  exists st7, u. split.
+  - cbn [srun]. rewrite S1, S2, S3, S4, S5, S6, S7. reflexivity.
+  - split; [rewrite KX7, G6, KX5, KX4, G3, KX2, G1; exact Hx|].
+    split; [rewrite X7, G6, X5; exact EXT5|]. split; [exact K7|exact E7].
+Qed.
+End Recover.
+
+(* the two together: from any reachable state of the specification system *)
+Lemma recovers_faithful (D : schema) (ST : nat -> stmt) (ns : nat) (init : nat -> meta) :
+  (forall s v v', mid_of D s v = mid_of D s v' -> cols_of D s v = cols_of D s v') ->
+  (forall s v, mid_of D s v <> []) ->
+  (forall s s', s_id (ST s) = s_id (ST s') -> s = s') ->
+  (forall s s', s_text (ST s) = s_text (ST s') -> s = s') ->
+  (forall s, meta_ok D s (init s)) ->
+  forall nodes ls st c a m s p0 p1 p,
+  srun D ST ns (sinit init nodes) ls = Some st ->
+  let nd := s_nodes st (s_route st c) in
+  let k := g_calls (s_g st) c in
+  stmt_of_id ST ns (s_id (ST s)) = Some s -> stmt_of_text ST ns (s_text (ST s)) = Some s ->
+  sid D s 0 = s_id (ST s) ->
+  k_x k = Some a -> xa_stmt a = s -> k_st k = CS_exec1 a m ->
+  s_out st c = Some (Q_execute (mk_exec_frame (ST s) (k_ext k) a m)) -> s_inbox st c = None ->
+  k_ext k = n_ext nd ->
+  n_prep nd s = false -> n_salt nd s = 0 -> cols_of D s (n_ver nd s) <> [] ->
+  exists st' u,
+    srun D ST ns st [SL_serve c p0; SL_recv c; SL_serve c p1; SL_recv c; SL_tick c; SL_serve c p; SL_recv c] = Some st' /\
+    k_st (g_calls (s_g st') c) = CS_done (O_rows u (p_paging p) (p_nrows p) (p_cells p)) /\
+    ((k_ext k = true \/ xa_use_cached a = false) -> m_cols u = cols_of D s (n_ver nd s)).
+Proof.
+  intros H1 H2 H3 H4 H5 nodes ls st c a m s p0 p1 p HR nd k Hid Htx Hsid Hx Hs Hst Hout Hin Hext Hprep Hsalt Hcols.
+  destruct (recovers D ST ns st c a m s p0 p1 p Hid Htx Hsid Hx Hs Hst Hout Hin Hext Hprep Hsalt Hcols)
+    as [st' [u [Hrun [Hx' [Hext' [Hd Henc]]]]]].
+  exists st', u. split; [exact Hrun|]. split; [exact Hd|].
+  intros Hf.
+  assert (HR' : srun D ST ns (sinit init nodes)
+                  (ls ++ [SL_serve c p0; SL_recv c; SL_serve c p1; SL_recv c; SL_tick c; SL_serve c p; SL_recv c]) = Some st').
+  { rewrite srun_app, HR. exact Hrun. }
+  assert (Hf' : k_ext (g_calls (s_g st') c) = true \/ xa_use_cached a = false).
+  { fold k in Hext'. rewrite Hext'. exact Hf. }
+  destruct (faithful D ST ns init H1 H2 H3 H4 H5 nodes _ st' c a u _ _ _ HR' Hx' Hd Hf') as [enc [p' [E1 [E2 _]]]].
+  fold nd in Henc. rewrite Henc in E1. inversion E1 as [[Ee Ep]]. rewrite Ee. exact E2.
+Qed.
